@@ -43,6 +43,8 @@ def pool_trees():
         "e12": ("Add", [("Multiply", [("Constant", 2), X]), Y, ("Constant", 3)]),
         # a Power with variable base and exponent below parents that evaluate it before differentiating it
         "e13": ("Multiply", [("Constant", 2), ("Sine", ("Power", ("Add", [X, ("Constant", 3)]), Y))]),
+        # operands that fail in different ways at p6 (numerator: DomainError, denominator: CoordinateMissing)
+        "e15": ("Divide", ("Logarithm", X, E), ("Add", [Y, ("Constant", 2)])),
         "e11": ("Multiply", [("NthRoot", ("Negation", t), 7), ("Logarithm", ("NthPower", Y, 2), 0.5), ("NthRoot", X, 9)]),
     }
 
@@ -53,6 +55,7 @@ POINTS = {
     "p3": {"x": 0.0, "y": 1.0},       # s == 0: memo value is 0
     "p4": {"x": 2.0},                 # y missing
     "p5": {"y": 3.0, "x": 2.0, "unused": 9},
+    "p6": {"x": -1.5},                # y missing AND x outside the domain of e3/e15: two different failures at once
 }
 
 KINDS = ["at", "partial", "partial-early", "located", "differential-early", "as_expression", "normalize",
